@@ -124,6 +124,8 @@ type zzC08Conf struct {
 	FlagQ     bool                // ignore_querylog
 	FlagS     bool                // ignore_statistics
 	Leases    map[string]string   // ip -> mac
+	QlogOff   bool                // query log disabled
+	StatsOff  bool                // statistics disabled
 }
 
 const zzC08ClientName = "zzc08-client"
@@ -222,7 +224,7 @@ func zzC08Start(dir string, c *zzC08Conf) (e *zzC08Env, err error) {
 		Limit:             24 * time.Hour,
 		ConfigModified:    func() {},
 		HTTPRegister:      e.register,
-		Enabled:           true,
+		Enabled:           !c.StatsOff,
 		ShouldCountClient: e.clients.shouldCountClient,
 	}
 	statsConf.Ignored, err = aghnet.NewIgnoreEngine(c.IgnS)
@@ -246,7 +248,7 @@ func zzC08Start(dir string, c *zzC08Conf) (e *zzC08Env, err error) {
 		AnonymizeClientIP: c.Anon,
 		RotationIvl:       timeutil.Day,
 		MemSize:           5000,
-		Enabled:           true,
+		Enabled:           !c.QlogOff,
 		FileEnabled:       true,
 	}
 	qconf.Ignored, err = aghnet.NewIgnoreEngine(c.IgnQ)
@@ -381,6 +383,17 @@ func (e *zzC08Env) stop() {
 	if e.up != nil {
 		_ = e.up.pc.Close()
 	}
+}
+
+// flush writes the query log's memory buffer to querylog.json, as a shutdown
+// does.  An empty buffer is reported as an error by the code; it is none here.
+func (e *zzC08Env) flush() (err error) {
+	err = e.qlog.Shutdown(context.Background())
+	if err != nil && strings.Contains(err.Error(), "nothing to write") {
+		return nil
+	}
+
+	return err
 }
 
 // call invokes a registered admin handler.
@@ -694,14 +707,15 @@ func (e *zzC08Env) updateClient(ids []string, flagQ, flagS bool) (err error) {
 	return nil
 }
 
-// setQlogConf replaces the query log's ignore list through the admin API.
-func (e *zzC08Env) setQlogConf(ign []string, anon bool) (err error) {
+// setQlogConf sets the query log's ignore list and switches through
+// PUT /control/querylog/config/update.
+func (e *zzC08Env) setQlogConf(ign []string, anon, enabled bool) (err error) {
 	if ign == nil {
 		ign = []string{}
 	}
 
 	code, body, err := e.call(http.MethodPut, "/control/querylog/config/update", "", map[string]any{
-		"enabled": true, "anonymize_client_ip": anon, "interval": 86400000, "ignored": ign,
+		"enabled": enabled, "anonymize_client_ip": anon, "interval": 86400000, "ignored": ign,
 	})
 	if err != nil || code != http.StatusOK {
 		return fmt.Errorf("querylog/config/update: %d %s %v", code, strings.TrimSpace(string(body)), err)
@@ -710,14 +724,26 @@ func (e *zzC08Env) setQlogConf(ign []string, anon bool) (err error) {
 	return nil
 }
 
-// setStatsConf replaces the statistics' ignore list through the admin API.
-func (e *zzC08Env) setStatsConf(ign []string) (err error) {
+// setQlogLegacy sends a partial update (only the given switches) to the
+// legacy POST /control/querylog_config.
+func (e *zzC08Env) setQlogLegacy(fields map[string]any) (err error) {
+	code, body, err := e.call(http.MethodPost, "/control/querylog_config", "", fields)
+	if err != nil || code != http.StatusOK {
+		return fmt.Errorf("querylog_config: %d %s %v", code, strings.TrimSpace(string(body)), err)
+	}
+
+	return nil
+}
+
+// setStatsConf sets the statistics' ignore list and switch through
+// PUT /control/stats/config/update.
+func (e *zzC08Env) setStatsConf(ign []string, enabled bool) (err error) {
 	if ign == nil {
 		ign = []string{}
 	}
 
 	code, body, err := e.call(http.MethodPut, "/control/stats/config/update", "", map[string]any{
-		"enabled": true, "interval": 86400000, "ignored": ign,
+		"enabled": enabled, "interval": 86400000, "ignored": ign,
 	})
 	if err != nil || code != http.StatusOK {
 		return fmt.Errorf("stats/config/update: %d %s %v", code, strings.TrimSpace(string(body)), err)
@@ -753,6 +779,8 @@ type zzC08Cfg struct {
 	FlagQ     bool        `json:"flagQ"`
 	FlagS     bool        `json:"flagS"`
 	Anon      bool        `json:"anon"`
+	QlogOn    bool        `json:"qlogOn"`
+	StatsOn   bool        `json:"statsOn"`
 	RefuseAny bool        `json:"refuseAny"`
 }
 
@@ -989,7 +1017,78 @@ func (l zzC08Layout) conf(c *zzC08Cfg) (conf *zzC08Conf) {
 	return &zzC08Conf{
 		IgnQ: zzC08Rules(c.IgnQ), IgnS: zzC08Rules(c.IgnS), Anon: c.Anon, RefuseAny: c.RefuseAny,
 		ClientIDs: ids, FlagQ: c.FlagQ, FlagS: c.FlagS, Leases: leases,
+		QlogOff: !c.QlogOn, StatsOff: !c.StatsOn,
 	}
+}
+
+// zzC08Case renders s (lower case) in one of several seeded letter-case
+// patterns: per-letter, so that every single position and the boundary letters
+// of the alphabet are hit, not only "mostly mixed" spellings.
+func zzC08Case(rng *rand.Rand, s string) (out string) {
+	b := []byte(s)
+	var letters []int
+	for i, c := range b {
+		if c >= 'a' && c <= 'z' {
+			letters = append(letters, i)
+		}
+	}
+
+	if len(letters) == 0 {
+		return s
+	}
+
+	up := func(i int) { b[i] = b[i] - 'a' + 'A' }
+	switch rng.Intn(8) {
+	case 0:
+		// All lower case.
+	case 1:
+		for _, i := range letters {
+			up(i)
+		}
+	case 2:
+		// Exactly one position.
+		up(letters[rng.Intn(len(letters))])
+	case 3:
+		// All but one position.
+		skip := letters[rng.Intn(len(letters))]
+		for _, i := range letters {
+			if i != skip {
+				up(i)
+			}
+		}
+	case 4:
+		// All occurrences of one letter of the name, first and last letters
+		// of the alphabet preferred.
+		pick := b[letters[rng.Intn(len(letters))]]
+		for _, c := range []byte{'z', 'a'} {
+			if strings.IndexByte(s, c) >= 0 && rng.Intn(3) != 0 {
+				pick = c
+
+				break
+			}
+		}
+
+		for _, i := range letters {
+			if b[i] == pick {
+				up(i)
+			}
+		}
+	case 5:
+		// Exactly the boundary letters.
+		for _, i := range letters {
+			if b[i] == 'a' || b[i] == 'z' {
+				up(i)
+			}
+		}
+	default:
+		for _, i := range letters {
+			if rng.Intn(2) == 0 {
+				up(i)
+			}
+		}
+	}
+
+	return string(b)
 }
 
 // zzC08WireName renders a name with seeded letter case.  A DNS message
@@ -1000,14 +1099,7 @@ func zzC08WireName(rng *rand.Rand, labels []string) (s string) {
 		return "."
 	}
 
-	b := []byte(strings.Join(labels, ".") + ".")
-	for i, c := range b {
-		if c >= 'a' && c <= 'z' && rng.Intn(2) == 0 {
-			b[i] = c - 'a' + 'A'
-		}
-	}
-
-	return string(b)
+	return zzC08Case(rng, strings.Join(labels, ".")) + "."
 }
 
 func zzC08NameKey(labels []string) (s string) {
@@ -1060,16 +1152,20 @@ type zzC08TV struct {
 }
 
 type zzC08Script struct {
-	Kind  string    `json:"kind"`
-	ID    int       `json:"id"`
-	C0    zzC08Cfg  `json:"c0"`
-	C1    zzC08Cfg  `json:"c1"`
-	C2    zzC08Cfg  `json:"c2"`
-	Log   []zzC08TV `json:"log"`
-	Cnt   []zzC08TV `json:"cnt"`
-	API1  []zzC08TV `json:"api1"`
-	API1b []zzC08TV `json:"api1b"`
-	API2  []zzC08TV `json:"api2"`
+	Kind string `json:"kind"`
+	ID   int    `json:"id"`
+	Par  struct {
+		Ep string `json:"ep"`
+	} `json:"par"`
+	// K are the four configurations K0..K3.
+	K   [4]zzC08Cfg `json:"k"`
+	Log []zzC08TV   `json:"log"`
+	Cnt []zzC08TV   `json:"cnt"`
+	// API are the log-API tables under K1, K2, K3.
+	API [3][]zzC08TV `json:"api"`
+	// AnonRep[k] lists the rounds whose entries must be reported anonymised
+	// under K[k].
+	AnonRep [4][]int `json:"anonrep"`
 }
 
 // zzC08Q is one query of a script.
@@ -1130,6 +1226,16 @@ func zzC08IsNo(v string) (no bool) { return strings.HasPrefix(v, "no:") }
 // anonymisation removes.
 func zzC08AOnly(v string) (a bool) { return v == "no:R:A" }
 
+// zzC08KOfRound says which configuration a round is recorded under (round 4
+// is the ANY probe, sent with round 1).
+func zzC08KOfRound(r int) (k int) {
+	if r == 4 {
+		return 0
+	}
+
+	return r - 1
+}
+
 // zzC08RunScript runs one script against a fresh server.
 func zzC08RunScript(u *zzC08Univ, sc *zzC08Script, seed int64, work string) (res *zzC08Result) {
 	res = &zzC08Result{}
@@ -1148,7 +1254,7 @@ func zzC08RunScript(u *zzC08Univ, sc *zzC08Script, seed int64, work string) (res
 	mk := func(ni, si, r int) (q *zzC08Q) {
 		snd := &u.Senders[si-1]
 		q = &zzC08Q{id: [3]int{ni, si, r}, name: u.Names[ni-1], snd: snd}
-		if r == 3 {
+		if r == 4 {
 			q.qt = "ANY"
 		} else {
 			q.qt = snd.Qt[r-1]
@@ -1157,16 +1263,15 @@ func zzC08RunScript(u *zzC08Univ, sc *zzC08Script, seed int64, work string) (res
 		ip := lay.addr(snd.Addr)
 		q.conc = zzC08Query{
 			Name: zzC08WireName(rng, q.name), Qtype: zzC08Types[q.qt], Addr: ip.String(),
-			DoH: snd.Addr.Fam != "v4" || snd.CID != "", CID: snd.CID,
-		}
-		if snd.CID != "" && rng.Intn(2) == 0 {
-			q.conc.CID = strings.ToUpper(snd.CID[:1]) + snd.CID[1:]
+			DoH: snd.Addr.Fam != "v4" || snd.CID != "", CID: zzC08Case(rng, snd.CID),
 		}
 
+		// The statistics key: the ClientID, or the address as it is stored
+		// under the configuration the round is recorded under.
 		switch {
 		case snd.CID != "":
 			q.stKey = snd.CID
-		case sc.C0.Anon:
+		case sc.K[zzC08KOfRound(r)].Anon:
 			b := make([]int, len(snd.Addr.Bits))
 			copy(b, snd.Addr.Bits[:u.Width-u.LowBits])
 			q.stKey = lay.addr(zzC08Addr{Fam: snd.Addr.Fam, Bits: b}).Unmap().String()
@@ -1177,18 +1282,26 @@ func zzC08RunScript(u *zzC08Univ, sc *zzC08Script, seed int64, work string) (res
 		return q
 	}
 
-	var batch1, batch2 []*zzC08Q
+	var batches [3][]*zzC08Q
 	byTag := map[string]*zzC08Q{}
 	for ni := range u.Names {
 		for si := range u.Senders {
-			batch1 = append(batch1, mk(ni+1, si+1, 1))
-			batch2 = append(batch2, mk(ni+1, si+1, 2))
+			for r := 1; r <= 3; r++ {
+				batches[r-1] = append(batches[r-1], mk(ni+1, si+1, r))
+			}
 		}
 
-		batch1 = append(batch1, mk(ni+1, 1, 3))
+		batches[0] = append(batches[0], mk(ni+1, 1, 4))
 	}
 
-	for _, q := range append(append([]*zzC08Q{}, batch1...), batch2...) {
+	var all []*zzC08Q
+	for i := range batches {
+		b := batches[i]
+		rng.Shuffle(len(b), func(x, y int) { b[x], b[y] = b[y], b[x] })
+		all = append(all, b...)
+	}
+
+	for _, q := range all {
 		tag := zzC08NameKey(q.name) + "|" + q.qt
 		if byTag[tag] != nil {
 			res.err = fmt.Errorf("ambiguous tag %s", tag)
@@ -1205,11 +1318,8 @@ func zzC08RunScript(u *zzC08Univ, sc *zzC08Script, seed int64, work string) (res
 		byTag[tag] = q
 	}
 
-	rng.Shuffle(len(batch1), func(i, j int) { batch1[i], batch1[j] = batch1[j], batch1[i] })
-	rng.Shuffle(len(batch2), func(i, j int) { batch2[i], batch2[j] = batch2[j], batch2[i] })
-
 	tLog, tCnt := zzC08Table(sc.Log), zzC08Table(sc.Cnt)
-	tAPI1, tAPI1b, tAPI2 := zzC08Table(sc.API1), zzC08Table(sc.API1b), zzC08Table(sc.API2)
+	tAPI := [3]map[[3]int]string{zzC08Table(sc.API[0]), zzC08Table(sc.API[1]), zzC08Table(sc.API[2])}
 	verdict := func(t map[[3]int]string, q *zzC08Q) (v string) {
 		if v = t[q.id]; v == "" {
 			return "yes"
@@ -1221,7 +1331,7 @@ func zzC08RunScript(u *zzC08Univ, sc *zzC08Script, seed int64, work string) (res
 	var e *zzC08Env
 	for try := 0; try < 5; try++ {
 		// Another process may grab the probed port; start again then.
-		e, err = zzC08Start(dir, lay.conf(&sc.C0))
+		e, err = zzC08Start(dir, lay.conf(&sc.K[0]))
 		if err == nil || !strings.Contains(err.Error(), "address already in use") {
 			break
 		}
@@ -1236,9 +1346,8 @@ func zzC08RunScript(u *zzC08Univ, sc *zzC08Script, seed int64, work string) (res
 	}
 	defer e.stop()
 
-	anon := sc.C0.Anon
-	ckind := sc.C0.Client.Kind
-	addBad := func(b zzC08Bad) {
+	ckind := sc.K[0].Client.Kind
+	addBad := func(b zzC08Bad, anon bool) {
 		b.Anon, b.Client = anon, ckind
 		res.bad = append(res.bad, b)
 	}
@@ -1257,9 +1366,9 @@ func zzC08RunScript(u *zzC08Univ, sc *zzC08Script, seed int64, work string) (res
 	}
 
 	// checkLog compares a set of observed query-log entries with a table.
-	// memRound says which round's entries live in the memory buffer at this
-	// observation point (0 = none).
-	checkLog := func(obs string, ents []zzC08Entry, t map[[3]int]string, scope []*zzC08Q, memRounds map[int]bool, src string) {
+	// memRounds says which rounds' entries live in the memory buffer at this
+	// observation point; mustAnon which rounds' addresses must be anonymised.
+	checkLog := func(obs string, ents []zzC08Entry, t map[[3]int]string, scope []*zzC08Q, memRounds, mustAnon map[int]bool, src string) {
 		seen := map[[3]int]bool{}
 		for _, en := range ents {
 			q := byTag[strings.ToLower(en.Name)+"|"+en.Qtype]
@@ -1271,27 +1380,24 @@ func zzC08RunScript(u *zzC08Univ, sc *zzC08Script, seed int64, work string) (res
 
 			seen[q.id] = true
 			store := "file"
-			if memRounds[q.id[2]] {
+			if memRounds[q.id[2]] && src != "file" {
 				store = "mem"
 			}
 
-			if src == "file" {
-				store = "file"
-			}
-
+			recAnon := sc.K[zzC08KOfRound(q.id[2])].Anon
 			if v := verdict(t, q); zzC08IsNo(v) {
 				addBad(zzC08Bad{
 					Obs: obs, Kind: "ignored-present", Store: store, Q: q.id[:], V: v,
-					Concret: fmt.Sprintf("%s %s from %s cid=%q -> %s entry ip=%s cid=%q", q.conc.Name, q.qt, q.conc.Addr, q.conc.CID, src, en.IP, en.CID),
-				})
+					Concret: fmt.Sprintf("%s %s from %s cid=%q -> %s entry name=%q ip=%s cid=%q", q.conc.Name, q.qt, q.conc.Addr, q.conc.CID, src, en.Name, en.IP, en.CID),
+				}, recAnon)
 			}
 
-			if anon {
+			if mustAnon[q.id[2]] {
 				if isAnon, ok := zzC08IsAnon(en.IP); !ok || !isAnon {
 					addBad(zzC08Bad{
 						Obs: obs, Kind: "not-anonymised", Store: store, Q: q.id[:],
 						Concret: fmt.Sprintf("%s %s from %s -> %s entry ip=%q", q.conc.Name, q.qt, q.conc.Addr, src, en.IP),
-					})
+					}, recAnon)
 				}
 			}
 		}
@@ -1311,7 +1417,9 @@ func zzC08RunScript(u *zzC08Univ, sc *zzC08Script, seed int64, work string) (res
 	}
 
 	// checkStats compares counters with the count table: nothing may exceed
-	// what the non-ignored queries account for.
+	// what the non-ignored queries account for, and every client key must be
+	// the key some countable query is filed under (which is the anonymised
+	// address for queries recorded while anonymisation is on).
 	checkStats := func(obs string, st *zzC08Stats, scope []*zzC08Q, mins bool, ips []netip.Addr) {
 		type rng struct{ min, max, nA uint64 }
 		names, keys, tot := map[string]*rng{}, map[string]*rng{}, &rng{}
@@ -1324,7 +1432,9 @@ func zzC08RunScript(u *zzC08Univ, sc *zzC08Script, seed int64, work string) (res
 			return r
 		}
 
+		anyAnon := false
 		for _, q := range scope {
+			anyAnon = anyAnon || sc.K[zzC08KOfRound(q.id[2])].Anon
 			v := verdict(tCnt, q)
 			for _, r := range []*rng{get(names, zzC08NameKey(q.name)), get(keys, q.stKey), tot} {
 				switch {
@@ -1347,13 +1457,28 @@ func zzC08RunScript(u *zzC08Univ, sc *zzC08Script, seed int64, work string) (res
 
 			switch {
 			case seen > r.max:
-				addBad(zzC08Bad{Obs: obs, Kind: "count-exceeded", Group: group, Seen: seen, Max: r.max, NA: r.nA})
+				addBad(zzC08Bad{Obs: obs, Kind: "count-exceeded", Group: group, Seen: seen, Max: r.max, NA: r.nA}, anyAnon)
 			case mins && seen < r.min:
 				res.lost = append(res.lost, fmt.Sprintf("%s %s %d<%d", obs, group, seen, r.min))
 			case r.max == 0:
 				res.absentOK++
 			default:
 				res.present++
+			}
+		}
+
+		// An un-anonymised address is in order only as the key of a query
+		// recorded while anonymisation was off.
+		checkKeyAnon := func(store, k string) {
+			isAnon, ok := zzC08IsAnon(k)
+			if !ok || isAnon {
+				return
+			}
+
+			if r := keys[zzC08ClientKey(k)]; r == nil || r.max == 0 {
+				if anyAnon {
+					addBad(zzC08Bad{Obs: obs, Kind: "not-anonymised", Store: store, Group: "key:" + k}, true)
+				}
 			}
 		}
 
@@ -1372,9 +1497,7 @@ func zzC08RunScript(u *zzC08Univ, sc *zzC08Script, seed int64, work string) (res
 			canon := map[string]uint64{}
 			for k, c := range st.Clients {
 				canon[zzC08ClientKey(k)] += c
-				if isAnon, ok := zzC08IsAnon(k); anon && ok && !isAnon {
-					addBad(zzC08Bad{Obs: obs, Kind: "not-anonymised", Store: "unit", Group: "key:" + k})
-				}
+				checkKeyAnon("unit", k)
 			}
 
 			for k, r := range keys {
@@ -1391,68 +1514,69 @@ func zzC08RunScript(u *zzC08Univ, sc *zzC08Script, seed int64, work string) (res
 		for _, ip := range ips {
 			k := ip.Unmap().String()
 			res.checked++
-			if isAnon, _ := zzC08IsAnon(k); anon && !isAnon {
-				addBad(zzC08Bad{Obs: obs, Kind: "not-anonymised", Store: "topips", Group: "key:" + k})
-			}
-
+			checkKeyAnon("topips", k)
 			if r := keys[k]; r == nil || r.max == 0 {
 				nA := uint64(0)
 				if r != nil {
 					nA = r.nA
 				}
 
-				addBad(zzC08Bad{Obs: obs, Kind: "count-exceeded", Store: "topips", Group: "key:" + k, Seen: 1, Max: 0, NA: nA})
+				addBad(zzC08Bad{Obs: obs, Kind: "count-exceeded", Store: "topips", Group: "key:" + k, Seen: 1, Max: 0, NA: nA}, anyAnon)
 			}
 		}
 	}
 
-	all := append(append([]*zzC08Q{}, batch1...), batch2...)
 	fail := func(what string, ferr error) *zzC08Result {
 		res.err = fmt.Errorf("%s: %w", what, ferr)
 
 		return res
 	}
 
-	// Round 1 under c0.
-	sendAll(batch1)
-	ents, err := e.searchAPI()
-	if err != nil {
-		return fail("api0", err)
-	}
-	checkLog("api0", ents, tLog, batch1, map[int]bool{1: true, 3: true}, "api")
+	rounds := func(rs ...int) (m map[int]bool) {
+		m = map[int]bool{}
+		for _, r := range rs {
+			m[r] = true
+		}
 
-	st, err := e.statsAPI()
-	if err != nil {
-		return fail("stats0", err)
-	}
-	checkStats("stats0", st, batch1, true, e.stats.TopClientsIP(1000))
-
-	// Flush the memory buffer to querylog.json.
-	if err = e.qlog.Shutdown(context.Background()); err != nil {
-		return fail("flush", err)
+		return m
 	}
 
-	if ents, err = e.fileEntries(); err != nil {
-		return fail("file0", err)
+	// Addresses that must be reported anonymised under K[k] / stored
+	// anonymised in the file.
+	repAnon := func(k int) (m map[int]bool) { return rounds(sc.AnonRep[k]...) }
+	fileAnon := map[int]bool{}
+	for r := 1; r <= 4; r++ {
+		fileAnon[r] = sc.K[zzC08KOfRound(r)].Anon
 	}
-	checkLog("file0", ents, tLog, batch1, nil, "file")
 
-	if ents, err = e.searchAPI(); err != nil {
-		return fail("api0f", err)
-	}
-	checkLog("api0f", ents, tLog, batch1, nil, "api")
+	// reconf moves the server from K[k-1] to K[k] through the admin API.
+	ids, _ := lay.clientIDs(sc.K[0].Client)
+	reconf := func(k int) (rerr error) {
+		prev, c := &sc.K[k-1], &sc.K[k]
+		if sc.Par.Ep == "legacy" && k < 3 {
+			// The legacy endpoint takes partial updates: only what changes.
+			fields := map[string]any{}
+			if c.QlogOn != prev.QlogOn {
+				fields["enabled"] = c.QlogOn
+			}
 
-	// Reconfigure to c1 through the admin API.
-	ids, _ := lay.clientIDs(sc.C0.Client)
-	reconf := func(c *zzC08Cfg, withStats bool) (rerr error) {
-		if rerr = e.setQlogConf(zzC08Rules(c.IgnQ), c.Anon); rerr != nil {
+			if c.Anon != prev.Anon {
+				fields["anonymize_client_ip"] = c.Anon
+			}
+
+			if len(fields) > 0 {
+				rerr = e.setQlogLegacy(fields)
+			}
+		} else {
+			rerr = e.setQlogConf(zzC08Rules(c.IgnQ), c.Anon, c.QlogOn)
+		}
+
+		if rerr != nil {
 			return rerr
 		}
 
-		if withStats {
-			if rerr = e.setStatsConf(zzC08Rules(c.IgnS)); rerr != nil {
-				return rerr
-			}
+		if rerr = e.setStatsConf(zzC08Rules(c.IgnS), c.StatsOn); rerr != nil {
+			return rerr
 		}
 
 		if c.Client.Kind != "none" {
@@ -1462,42 +1586,106 @@ func zzC08RunScript(u *zzC08Univ, sc *zzC08Script, seed int64, work string) (res
 		return rerr
 	}
 
-	if err = reconf(&sc.C1, true); err != nil {
+	api := func(obs string, t map[[3]int]string, scope []*zzC08Q, mem map[int]bool, k int) (aerr error) {
+		ents, aerr := e.searchAPI()
+		if aerr != nil {
+			return aerr
+		}
+
+		checkLog(obs, ents, t, scope, mem, repAnon(k), "api")
+
+		return nil
+	}
+
+	file := func(obs string, scope []*zzC08Q) (ferr error) {
+		ents, ferr := e.fileEntries()
+		if ferr != nil {
+			return ferr
+		}
+
+		checkLog(obs, ents, tLog, scope, nil, fileAnon, "file")
+
+		return nil
+	}
+
+	b1, b12 := batches[0], append(append([]*zzC08Q{}, batches[0]...), batches[1]...)
+
+	// Round 1 (+ ANY probes) under K0.
+	sendAll(batches[0])
+	if err = api("api0", tLog, b1, rounds(1, 4), 0); err != nil {
+		return fail("api0", err)
+	}
+
+	st, err := e.statsAPI()
+	if err != nil {
+		return fail("stats0", err)
+	}
+	checkStats("stats0", st, b1, true, e.stats.TopClientsIP(1000))
+
+	// Flush the memory buffer to querylog.json.
+	if err = e.flush(); err != nil {
+		return fail("flush1", err)
+	}
+
+	if err = file("file0", b1); err != nil {
+		return fail("file0", err)
+	}
+
+	if err = api("api0f", tLog, b1, nil, 0); err != nil {
+		return fail("api0f", err)
+	}
+
+	// K1.
+	if err = reconf(1); err != nil {
 		return fail("reconf1", err)
 	}
 
-	if ents, err = e.searchAPI(); err != nil {
+	if err = api("api1", tAPI[0], b1, nil, 1); err != nil {
 		return fail("api1", err)
 	}
-	checkLog("api1", ents, tAPI1, batch1, nil, "api")
 
-	// Round 2 under c1.
-	sendAll(batch2)
-	if ents, err = e.searchAPI(); err != nil {
+	sendAll(batches[1])
+	if err = api("api1b", tAPI[0], b12, rounds(2), 1); err != nil {
 		return fail("api1b", err)
 	}
-	checkLog("api1b", ents, tAPI1b, all, map[int]bool{2: true}, "api")
 
-	if err = reconf(&sc.C2, false); err != nil {
+	if err = e.flush(); err != nil {
+		return fail("flush2", err)
+	}
+
+	// K2.
+	if err = reconf(2); err != nil {
 		return fail("reconf2", err)
 	}
 
-	if ents, err = e.searchAPI(); err != nil {
+	if err = api("api2", tAPI[1], b12, nil, 2); err != nil {
 		return fail("api2", err)
 	}
-	checkLog("api2", ents, tAPI2, all, map[int]bool{2: true}, "api")
+
+	sendAll(batches[2])
+	if err = api("api2b", tAPI[1], all, rounds(3), 2); err != nil {
+		return fail("api2b", err)
+	}
+
+	// K3: only looked at.
+	if err = reconf(3); err != nil {
+		return fail("reconf3", err)
+	}
+
+	if err = api("api3", tAPI[2], all, rounds(3), 3); err != nil {
+		return fail("api3", err)
+	}
 
 	if st, err = e.statsAPI(); err != nil {
-		return fail("stats2", err)
+		return fail("stats3", err)
 	}
-	checkStats("stats2", st, all, false, e.stats.TopClientsIP(1000))
+	checkStats("stats3", st, all, false, e.stats.TopClientsIP(1000))
 
 	// Stop: the rest of the buffer is flushed, the unit is written.
 	e.stop()
-	if ents, err = e.fileEntries(); err != nil {
-		return fail("file2", err)
+	if err = file("file3", all); err != nil {
+		return fail("file3", err)
 	}
-	checkLog("file2", ents, tLog, all, nil, "file")
 
 	if st, err = e.statsDB(); err != nil {
 		return fail("db", err)
@@ -1625,7 +1813,10 @@ func TestZZVerifC08Replay(t *testing.T) {
 // ------------------------------------------------------------ direction B
 
 var (
-	zzC08Labels = []string{"a", "b", "c", "xa", "ab", "mail", "www", "cdn", "x1", "a-b"}
+	zzC08Labels = []string{"a", "z", "b", "xa", "az", "zaz", "mail", "www", "quiz", "x1", "a-z"}
+	// Labels with the underscore (between 'Z' and 'a' in ASCII; accepted in
+	// names, not in hosts-style rules): used in query names only.
+	zzC08QueryOnlyLabels = []string{"z_a", "_a", "a_"}
 	zzC08TLDs   = []string{"com", "org", "net", "io"}
 	// Question types that the pipeline treats alike, plus A / AAAA.
 	zzC08QTypes = []string{
@@ -1667,7 +1858,13 @@ func zzC08TraceInstance(idx int, seed int64, work string) (lines []map[string]an
 		bases = append(bases, append(b, zzC08TLDs[rng.Intn(len(zzC08TLDs))]))
 	}
 
-	randName := func() (n []string) {
+	randName := func(forQuery bool) (n []string) {
+		defer func() {
+			if forQuery && len(n) > 1 && rng.Intn(8) == 0 {
+				n = append([]string{zzC08QueryOnlyLabels[rng.Intn(len(zzC08QueryOnlyLabels))]}, n...)
+			}
+		}()
+
 		switch r := rng.Intn(100); {
 		case r < 5:
 			return []string{}
@@ -1692,7 +1889,7 @@ func zzC08TraceInstance(idx int, seed int64, work string) (lines []map[string]an
 	randList := func() (ps []zzC08Pat) {
 		ps = []zzC08Pat{}
 		for j := rng.Intn(4); j > 0; j-- {
-			n := randName()
+			n := randName(false)
 			if rng.Intn(2) == 0 {
 				// A suffix of a base domain, so that subdomain matching is
 				// exercised.
@@ -1742,7 +1939,10 @@ func zzC08TraceInstance(idx int, seed int64, work string) (lines []map[string]an
 
 	cids := []string{"", "", "", "cli1", "phone-7", "tv"}
 
-	cfg := zzC08Cfg{IgnQ: randList(), IgnS: randList(), Anon: rng.Intn(2) == 0, RefuseAny: rng.Intn(2) == 0}
+	cfg := zzC08Cfg{
+		IgnQ: randList(), IgnS: randList(), Anon: rng.Intn(2) == 0, RefuseAny: rng.Intn(2) == 0,
+		QlogOn: true, StatsOn: true,
+	}
 	switch rng.Intn(6) {
 	case 0:
 		cfg.Client = zzC08Client{Kind: "none"}
@@ -1811,7 +2011,7 @@ func zzC08TraceInstance(idx int, seed int64, work string) (lines []map[string]an
 			qt = "ANY"
 		}
 
-		n := randName()
+		n := randName(true)
 		tag := zzC08NameKey(n) + "|" + qt
 		if byTag[tag] != nil {
 			continue
@@ -1822,7 +2022,7 @@ func zzC08TraceInstance(idx int, seed int64, work string) (lines []map[string]an
 			abs: zzC08AbsQ{Name: n, Addr: a, CID: cid, Qt: qt},
 			conc: zzC08Query{
 				Name: zzC08WireName(rng, n), Qtype: zzC08Types[qt], Addr: ip.String(),
-				DoH: a.Fam != "v4" || cid != "" || rng.Intn(4) == 0, CID: cid,
+				DoH: a.Fam != "v4" || cid != "" || rng.Intn(4) == 0, CID: zzC08Case(rng, cid),
 			},
 		}
 		byTag[tag] = q
@@ -1891,7 +2091,7 @@ func zzC08TraceInstance(idx int, seed int64, work string) (lines []map[string]an
 	unknown += mark(ents, "api0")
 
 	// Reconfigure the query log side, look again.
-	if err = e.setQlogConf(zzC08Rules(cur.IgnQ), cur.Anon); err != nil {
+	if err = e.setQlogConf(zzC08Rules(cur.IgnQ), cur.Anon, true); err != nil {
 		return nil, err
 	}
 
